@@ -43,6 +43,19 @@ def video2():
     return _video2
 
 
+_video3 = None
+
+
+def media_video():
+    """The repository's asset VIDEO FILE opened by sleap-io (MediaVideo backend: no HDF5 dataset, no source_filename)."""
+    global _video3
+    if _video3 is None:
+        import sleap_io as sio
+
+        _video3 = sio.load_video(os.path.join(os.path.dirname(ASSET), "centered_pair_small.mp4"))
+    return _video3
+
+
 def skeleton(n):
     import sleap_io as sio
 
@@ -152,14 +165,14 @@ def build_frame(pose_list, frame_idx, n_nodes, scores=None, vid=None, as_pred=No
     return lf
 
 
-def build_labels(frames, n_nodes, two_videos=False):
+def build_labels(frames, n_nodes, two_videos=False, media=False):
     """frames: list of dict(gt=[pose], pr=[pose], sc=[int], haspr=bool).  Returns
     (labels_gt, labels_pr, index) with index: id(instance) -> ('g'|'p', frame number 1-based, index 1-based)."""
     import sleap_io as sio
 
     sk = skeleton(n_nodes)
     gl, pl, index = [], [], {}
-    vids = [video(), video2()] if two_videos else [video()]
+    vids = [video(), video2()] if two_videos else ([media_video()] if media else [video()])
     for f, fr in enumerate(frames):
         # two_videos: frames alternate between the two embedded videos and SHARE frame numbers (0, 0, 1, 1, ...)
         vid, fidx = (vids[f % 2], f // 2) if two_videos else (vids[0], f)
@@ -227,7 +240,7 @@ def observe_eval(case, opts=None):
     with warnings.catch_warnings():
         warnings.simplefilter("ignore")
         try:
-            lg, lp, index, keep = build_labels(frames, n_nodes, two_videos=bool(opts.get("two_videos")))
+            lg, lp, index, keep = build_labels(frames, n_nodes, two_videos=bool(opts.get("two_videos")), media=bool(opts.get("media_video")))
             ev = E.Evaluator(lg, lp, oks_stddev=stddev, oks_scale=scale, match_threshold=thr, user_labels_only=bool(opts.get("user_labels_only", True)))
             import copy
             m1 = copy.deepcopy(ev.evaluate())
